@@ -218,8 +218,28 @@ class JnpCopysignPlugin(PrimitiveLeafPlugin):
         _ensure_value_metadata(ctx, neg_abs_x)
 
         zero = ctx.bind_const_for_var(object(), np.asarray(0, dtype=out_dtype))
+        # The sign BIT of y decides, and -0.0 < 0 is false: probe a zero through its
+        # reciprocal (1 / -0.0 = -inf, 1 / +0.0 = +inf); NaN keeps y itself (Equal is false).
+        y_is_zero = ctx.builder.Equal(
+            y_ready, zero, _outputs=[ctx.fresh_name("jnp_copysign_y_is_zero")]
+        )
+        y_is_zero.type = ir.TensorType(ir.DataType.BOOL)
+        _stamp_shape_like(y_is_zero, y_ready, y_shape)
+        _ensure_value_metadata(ctx, y_is_zero)
+        y_recip = ctx.builder.Reciprocal(
+            y_ready, _outputs=[ctx.fresh_name("jnp_copysign_y_recip")]
+        )
+        y_recip.type = y_ready.type
+        _stamp_shape_like(y_recip, y_ready, y_shape)
+        _ensure_value_metadata(ctx, y_recip)
+        y_probe = ctx.builder.Where(
+            y_is_zero, y_recip, y_ready, _outputs=[ctx.fresh_name("jnp_copysign_y_probe")]
+        )
+        y_probe.type = y_ready.type
+        _stamp_shape_like(y_probe, y_ready, y_shape)
+        _ensure_value_metadata(ctx, y_probe)
         y_negative = ctx.builder.Less(
-            y_ready,
+            y_probe,
             zero,
             _outputs=[ctx.fresh_name("jnp_copysign_y_negative")],
         )
